@@ -136,6 +136,7 @@ def old_cases(draw):
         ident = draw(st.sampled_from(rel))
     c = {
         "api": "old", "style": style, "source": src, "ident": ident,
+        "prior_size": draw(st.one_of(st.none(), st.tuples(st.integers(1, 10), st.integers(1, 6)).map(list))),
         "cell": [draw(st.integers(1, 4)), draw(st.integers(1, 6))],
         "size": draw(st.one_of(st.tuples(st.just("manual"), st.integers(1, 10), st.integers(1, 6)).map(list),
                                st.tuples(st.just("dynamic"), st.sampled_from(["FIT", "AUTO", "ORIGINAL"])).map(list))),
@@ -481,6 +482,16 @@ def _check_old(c, rec, image, cls, InvalidSizeError, resolve_pad):
             f"h_align={c['h_align']!r} pad_width={pw_raw} v_align={c['v_align']!r} pad_height={ph_raw} alpha={c['alpha']!r} "
             f"scroll={c['scroll']} check_size={c['check_size']} animate={c['animate']} repeat={c['repeat']} cached={c['cached']} "
             f"style={sa} ident={c['ident']} term={cols}x{rows} r0={r0} tty={c['tty']}")
+    if c.get("prior_size") and sz[0] == "manual":
+        # the same instance was formatted before, at another size, with the same padding parameters
+        try:
+            image.set_size(*c["prior_size"])
+            format(image, (str(pw_raw) if pw_raw > 0 else "") + ("." + str(ph_raw) if ph_raw > 0 else ""))
+        except Exception:
+            pass
+        image.set_size(sz[1], sz[2])
+        what += f" (same instance formatted before at {c['prior_size']})"
+        rec.label("prior_size")
     size_before = image.size
     tell_before = image.tell()
     cap = Cap(c["tty"])
